@@ -3,6 +3,9 @@
 # development as a full .vo build.  Harnesses and extracted model runners are
 # rebuilt by every check from /repo's working tree.
 set -e
-cd "$(dirname "$0")/coq"
+cd "$(dirname "$0")"
+# translated leaf functions (regenerated from /repo by every check as well)
+python3 gen/c2gallina.py
+cd coq
 coq_makefile -f _CoqProject -o Makefile
 timeout 7200 make -j16
